@@ -211,7 +211,7 @@ PROPS = {
                    "members no longer found; survivors keep their relative order and new members follow them; the same after a final reopen",
         level_note="tag references and attached sources are looked up by id only (their getters are documented as id lookups); the order of a "
                    "list that was replaced as a whole by a vector setter is not compared for that one step",
-        quick=dict(cases=250, size=400, workers=16, timeout=1800),
+        quick=dict(cases=120, size=400, workers=16, timeout=1800),
         thorough=dict(cases=5000, size=400, workers=16, timeout=14400),
         rule="tape -> program (harness/prog.hpp, profile Valid). Non-trivial: at least 3 successful creates, at least one successful delete/"
              "remove, and a member with a special name ('..', UUID-shaped, case/blank variant, UTF-8, '%', '.') was looked up. Distinct = hash of "
